@@ -7,9 +7,9 @@ from common import *
 
 STRINGS = [b'"a"', b'"b c"', b'"x@y.z"', b'"\\"q\\""', b'"back\\\\slash"', b'"[br,ack]"', b'"\xc3\xa9t\xc3\xa9"', b'""', b'"INBOX"',
            b'"multi\nline"', b'"#nocomment"', b'"/* no */"', b'"semi;colon"', b'"{brace}"',
-           b'"end\\\\"', b'"\\\\\\"x"', b'"]"', b'","', b'"[\\"a\\",\\"b\\"]"', b'"\xe2\x82\xac\xf0\x9f\x98\x80"', b'" lead and trail "', b'"\r\n"', b'"text:\n.\n"']
+           b'"end\\\\"', b'"\\\\\\"x"', b'"]"', b'","', b'"[\\"a\\",\\"b\\"]"', b'"\xe2\x82\xac\xf0\x9f\x98\x80"', b'" lead and trail "', b'"\r\n"', b'"text:\n.\n"', b'"100%"', b'"%s%d%(k)s"']
 NUMBERS = [b"0", b"10", b"1K", b"2M", b"3g", b"100000"]
-MULTI = [b"text:\nhello\n.\n", b"text:\r\nhi $x\r\n.\r\n", b"text:\n.x\n.\n"]
+MULTI = [b"text:\nhello\n.\n", b"text:\r\nhi $x\r\n.\r\n", b"text:\n.x\n.\n", b"text:\n20% off %s\n.\n"]
 
 
 class Gen:
@@ -224,6 +224,33 @@ def single_edits(tokens, vocab, r, limit=None):
         for v in (vocab if limit is None else r.sample(vocab, min(limit, len(vocab)))):
             if v != tokens[i]:
                 out.append(("rep", i, tokens[:i] + [v] + tokens[i + 1:]))
+    return out
+
+
+SNIPPETS = [[b"else", b"{", b"stop", b";", b"}"], [b"elsif", b"true", b"{", b"keep", b";", b"}"], [b"if", b"true", b"{", b"}"],
+            [b"stop", b";"], [b"require", b'"fileinto"', b";"], [b"true"], [b"{", b"}"], [b"(", b"true", b")"], [b"[", b'"a"', b"]"]]
+
+
+def structural_edits(tokens, r, limit=12):
+    """multi-token edits: a snippet (else-block, elsif-block, if-block, command, late require, stray test / block / list)
+    inserted at a command start (script start, after `{`, `;` or `}`), a balanced `{…}` group removed or doubled"""
+    starts = [0] + [i + 1 for i, t in enumerate(tokens) if t in (b"{", b";", b"}")]
+    out = []
+    for pos in starts:
+        for sn in SNIPPETS:
+            out.append(("ins-" + sn[0].decode(), pos, tokens[:pos] + sn + tokens[pos:]))
+    opens = [i for i, t in enumerate(tokens) if t == b"{"]
+    for i in opens:
+        d = 0
+        for j in range(i, len(tokens)):
+            d += tokens[j] == b"{"
+            d -= tokens[j] == b"}"
+            if d == 0:
+                out.append(("del-block", i, tokens[:i] + tokens[j + 1:]))
+                out.append(("dup-block", i, tokens[:j + 1] + tokens[i:j + 1] + tokens[j + 1:]))
+                break
+    if limit is not None and len(out) > limit:
+        out = r.sample(out, limit)
     return out
 
 
